@@ -482,6 +482,8 @@ class _R:
                 if after == "map" and rng.chance(1, 2):
                     col = cur_indent
                     self.feat.add("indentless-seq")
+                    if items[-1][0] == "s" and items[-1][3] == "" and items[-1][2] == "plain" and items[-1][1] == (False, None):
+                        self.feat.add("indentless-seq:last-entry-empty")
                 else:
                     col = cur_indent + 1 + rng.next(4)
                 head = ((sp + src) if src else "") + self.comment(rng) + nl
@@ -750,10 +752,14 @@ def nodes(max_leaves=10, tagspecs=None, texts=None, allow_nonspecific=False, sty
     alias = st.integers(0, 30).map(lambda n: ("a", n))
     leaf = st.one_of(scalar, scalar, scalar, scalar, alias)
 
+    # an entry or value with nothing written at all ('-' / 'key:' followed directly by the break): every position of a collection
+    empty = st.tuples(st.just("s"), st.just((False, None)), st.just("plain"), st.just(""), st.integers(0, 2**20))
+
     def extend(children):
-        seq = st.tuples(st.just("q"), props, st.booleans(), st.lists(children, max_size=4), st.integers(0, 2**20))
+        entry = st.one_of(children, children, children, children, children, empty)
+        seq = st.tuples(st.just("q"), props, st.booleans(), st.lists(entry, max_size=4), st.integers(0, 2**20))
         mp = st.tuples(st.just("m"), props, st.booleans(),
-                       st.lists(st.tuples(st.one_of(scalar, scalar, scalar, children), children), max_size=4), st.integers(0, 2**20))
+                       st.lists(st.tuples(st.one_of(scalar, scalar, scalar, children), entry), max_size=4), st.integers(0, 2**20))
         return st.one_of(seq, mp)
     return st.recursive(leaf, extend, max_leaves=max_leaves)
 
